@@ -195,12 +195,55 @@ theorem where_best_spec (r : Result) (lc pc : List Col) (n : Option Nat) (fl fp 
     filterBest r lc pc n fl fp = whereBestS r lc pc n fl fp :=
   filterBest_eq_spec r lc pc n fl fp hwf
 
+/-- The same for every walking order `lv` of the levels of a cell — in particular `ordLv ord`, the first-occurrence
+order of the `groups` list when `sorted(groups)` raised on key values of mixed type. -/
+theorem where_best_order_spec (lv : List BEnt → List Key) (r : Result) (lc pc : List Col) (n : Option Nat) (fl fp : List Col)
+    (hwf : WF r) : filterBestW lv r lc pc n fl fp = whereBestSW lv r lc pc n fl fp :=
+  filterBest_eq_specW lv r lc pc n fl fp hwf
+
+/-- The iteration order is not fixed (sorted, or table order when the keys cannot be sorted), the kept set is: two
+walking orders that list the same levels per cell keep the same evaluations whenever every cell has a single level of
+best mean (`UniqueMax`; with ties the later level in walking order wins, `pick_best_eq_spec`). -/
+theorem where_best_order_independent (lv1 lv2 : List BEnt → List Key) (es : List BEnt)
+    (hperm : ∀ e ∈ es, (lv1 (cellOfEnt es e)).Perm (lv2 (cellOfEnt es e)))
+    (hu : ∀ e ∈ es, UniqueMax (levelScoresW lv1 (cellOfEnt es e))) :
+    keptByBestSW lv1 es = keptByBestSW lv2 es :=
+  keptByBestSW_order_independent lv1 lv2 es hperm hu
+
+/-- two entries of one cell, levels `[0]` (mean 1) and `[1]` (mean 2): the ascending order and the table order
+`[(0,1,0),(0,0,0)]` list the same levels and the best mean is attained once -/
+example :
+    let es : List BEnt := [⟨[0], [0], [0], (0, 0, 0), 1⟩, ⟨[0], [0], [1], (0, 1, 0), 2⟩]
+    (∀ e ∈ es, (sortLv (cellOfEnt es e)).Perm (ordLv [(0, 1, 0), (0, 0, 0)] (cellOfEnt es e))) ∧
+      keptByBestSW sortLv es = [(0, 1, 0)] ∧ keptByBestSW (ordLv [(0, 1, 0), (0, 0, 0)]) es = [(0, 1, 0)] := by
+  decide +kernel
+
 /-- its result is again well-formed with mutually consistent tables -/
 theorem where_best_preserves_wf (r r' : Result) (lc pc : List Col) (n : Option Nat) (fl fp : List Col) (hwf : WF r)
     (h : filterBest r lc pc n fl fp = .ok r') : WF r' ∧ Consistent r' := by
   rw [where_best_spec r lc pc n fl fp hwf] at h
   obtain ⟨h1, h2⟩ := whereBestS_wf r r' lc pc n fl fp hwf h
   exact ⟨h1, h1.2.2.2, h2⟩
+
+/-- After the pairing step every pairing group of the result holds exactly one evaluation for every level of the
+result: for every well-formed Result, every choice of `l`/`p` columns — duplicate `(l,p)` cells (groups that are too
+large) and several evaluators included. -/
+theorem where_fin_pairing_complete (r r' : Result) (lc pc : List Col) (hwf : WF r)
+    (h : filterFin true r none (some (lc, pc)) = .ok r') : pairingComplete r' lc pc = .ok true := by
+  rw [filter_fin_eq_spec r none (some (lc, pc)) hwf.1 hwf.2.1 hwf.2.2.1 hwf.2.2.2 (by intro h; cases h)] at h
+  exact whereFinS_pairingComplete r r' lc pc hwf.1 h
+
+example : ∃ r', filterFin true cexDrop none (some ([.lid], [.eid])) = .ok r' ∧ pairingComplete r' [.lid] [.eid] = .ok true :=
+  ⟨cexDrop, by decide +kernel, by decide +kernel⟩
+
+/-- `where_fin(n=k,l,p)` in the repaired order (`filterFinD`, the code since the C18-F3 fix) returns "a Result where an
+`l` exists for every `p` and all `p` have `n` interactions": complete pairing *and* every evaluation exactly `k` long
+(the general statement behind `where_fin_length_drop_counterexample`). -/
+theorem where_fin_d_complete (r r' : Result) (m : Nat) (lc pc : List Col) (hwf : WF r) (hall : AllReferenced r)
+    (h : filterFinD r (some (.k (m + 1))) (some (lc, pc)) = .ok r') :
+    pairingComplete r' lc pc = .ok true ∧ ∀ g ∈ runs r'.ints, g.2.length = m + 1 := by
+  rw [filter_fin_d_eq_spec r _ _ hwf hall] at h
+  exact whereFinJ_complete r r' m lc pc hwf h
 
 /-! ### chains (the "histories" of the quantifier) -/
 
@@ -242,13 +285,14 @@ theorem raw_learners_eq_spec (r : Result) (x : XSpec) (lc : List Col) (pc : Opti
 
 /-! ### `raw_contrast` -/
 
-/-- `raw_contrast(l1,l2,x,y,l,p,span)`: the two label selections, `_grouped_ys(p,x,card='S')` on each, the pairing
+/-- `raw_contrast(l1,l2,x,y,l,p,span)` with any number of labels on each side: the label selections, `_grouped_ys(p,x,card='S')` on each, the pairing
 by `p` (`zip` for `x='index'`, `product` otherwise) and the grouping by x — fed with the values the code computes
 (`moving_average`, `mean(Y[-span:])`, `Y[-1]`) — equals the same pairing of the directly computed averages; the three
 `CobaException`s included. -/
-theorem raw_contrast_eq_spec (r : Result) (sel1 sel2 : List (Tbl × Option Nat × Int)) (pc : List Col) (x : XSpec)
-    (span : Option Nat) : rawContrast r sel1 sel2 pc x span = rawContrastS r sel1 sel2 pc x span :=
-  rawContrast_eq_spec r sel1 sel2 pc x span
+theorem raw_contrast_eq_spec (r : Result) (sels1 sels2 : List (List (Tbl × Option Nat × Int))) (pc : List Col)
+    (x : XSpec) (span : Option Nat) (strX : Bool) :
+    rawContrast r sels1 sels2 pc x span strX = rawContrastS r sels1 sels2 pc x span strX :=
+  rawContrast_eq_spec r sels1 sels2 pc x span strX
 
 /-- the `card='S'` dict never overwrites when no two entries share `(p, x)` — i.e. when every pairing value has one
 evaluation on each side (what `where_fin(l,p)` establishes): then each side's values are simply its entries -/
